@@ -107,3 +107,31 @@ def rand_model(r, n, n_ctcs=0, ctc_depth=2, ops=S.BINLOG + ("NOT",), abstract_p=
             f = [r.choice(("REQUIRES", "EXCLUDES", "IMPLIES")), f, r.choice(names)]
         spec["ctcs"].append({"name": f"c{i}", "ast": f})
     return spec
+
+
+def shared_vocabulary(spec, r, prefix="N", size=None):
+    """Rename the features of a spec to names drawn from one small shared vocabulary (N0, N1, ...), in
+    random order, so that different models of a pool carry the SAME names at DIFFERENT tree positions
+    (any cache keyed by feature name/equality becomes observable across models)."""
+    from .. import spec as S
+    names = S.feature_names(spec)
+    size = max(size or 0, len(names))
+    vocab = [f"{prefix}{k}" for k in range(size)]
+    chosen = r.sample(vocab, len(names))
+    # keep the root name identical in every model of the pool
+    if f"{prefix}0" in chosen:
+        chosen.remove(f"{prefix}0")
+        chosen.insert(0, f"{prefix}0")
+    else:
+        chosen[0] = f"{prefix}0"
+    ren = dict(zip(names, chosen))
+
+    def sub(t):
+        if isinstance(t, list):
+            return [t[0]] + [sub(x) for x in t[1:]]
+        return ren.get(t, t)
+    for f in S.features(spec["root"]):
+        f["name"] = ren[f["name"]]
+    for c in spec.get("ctcs", []):
+        c["ast"] = sub(c["ast"])
+    return spec
